@@ -200,6 +200,8 @@ if HAVE_GRB:
                 return CANNED['grb_status']
             if k == 'Runtime':
                 return 0.0
+            if k == 'SolCount':
+                return 1 if CANNED['grb_inc'] else 0
             if k == 'ObjVal':
                 if CANNED['grb_inc']:
                     return CANNED['pcost']
